@@ -223,8 +223,8 @@ Definition js_step (st : jstate) (ev : event) (outs : list (bytes * bytes)) : js
 
 (* generic driver: [f] judges one event given the bookkeeping BEFORE it; the verdict is the
    index of the first offending event and a reason code *)
-Fixpoint j_run (f : cfg -> jstate -> event -> list (bytes * bytes) -> list nat -> nat)
-         (c : cfg) (st : jstate) (evs : list event) (obs : list (list (bytes * bytes) * list nat))
+Fixpoint j_run (f : proxy_case -> jstate -> event -> list (bytes * bytes) -> list nat -> nat)
+         (c : proxy_case) (st : jstate) (evs : list event) (obs : list (list (bytes * bytes) * list nat))
   : option (nat * nat) :=
   match evs, obs with
   | ev :: er, (outs, closed) :: or_ =>
@@ -245,18 +245,34 @@ Definition lower_is (s : bytes) (t : string) : bool := beq (to_lower s) (s2b t).
 
 (* where a message for (transport, host, port) must show up; None = cannot be told (host not
    resolvable from the configuration) *)
-Inductive jdest := JDrop | JUdp (label : bytes) | JTcp | JAny.
+Inductive jdest := JDrop | JUdp (ip : bytes) (port : Z) | JTcp (ip : bytes) (port : Z) | JAny.
 Definition j_dest (c : cfg) (transport host : bytes) (port : Z) : jdest :=
   if lower_is transport "udp" then
-    match get_ip c host with Some ip => JUdp (udp_label ip port) | None => JAny end
-  else if lower_is transport "tcp" then JTcp
+    match get_ip c host with Some ip => JUdp ip port | None => JAny end
+  else if lower_is transport "tcp" then
+    match get_ip c host with Some ip => JTcp ip port | None => JAny end
   else JDrop.
-Definition dest_ok (d : jdest) (ms : list (bytes * bytes)) : bool :=
+Definition has_peer (l : list (bytes * Z)) (ip : bytes) (port : Z) : bool :=
+  existsb (fun '(i, p) => beq i ip && Z.eqb p port) l.
+(* what must be observed for a message prescribed to go to [d]: a datagram at that peer when
+   the driver owns a socket there (otherwise the datagram is sent but cannot be observed);
+   bytes on ONE connection when the peer accepts connections or already has one open to the
+   proxy (a refusing peer yields nothing) *)
+Definition dest_ok (pc : proxy_case) (st : jstate) (d : jdest) (ms : list (bytes * bytes)) : bool :=
   match d with
   | JAny => Nat.leb (List.length ms) 1
   | JDrop => match ms with [] => true | _ => false end
-  | JUdp l => match ms with [(l', _)] => beq l l' | _ => false end
-  | JTcp => match ms with [(l', _)] => is_conn_label l' | _ => false end
+  | JUdp ip port =>
+      if has_peer (pc_udp_endpoints pc) ip port
+      then match ms with [(l', _)] => beq (udp_label ip port) l' | _ => false end
+      else match ms with [] => true | _ => false end
+  | JTcp ip port =>
+      match ms with
+      | [(l', _)] => is_conn_label l'
+      | [] => negb (has_peer (pc_tcp_listeners pc) ip port) &&
+              negb (existsb (fun '(_, (_, i, p)) => beq i ip && Z.eqb p port) (js_conns st))
+      | _ => false
+      end
   end.
 
 (* ------------------------------------------------------------------ C01 *)
@@ -291,7 +307,8 @@ Definition judge_C01_pair (i o : jmsg) : nat :=
 Definition single_message (i : jmsg) : bool := match trim_left (jm_rest i) with [] => true | _ => false end.
 Fixpoint first_nonzero (l : list nat) : nat :=
   match l with [] => O | O :: r => first_nonzero r | n :: _ => n end.
-Definition judge_C01_event (c : cfg) (st : jstate) (ev : event) (outs : list (bytes * bytes)) (closed : list nat) : nat :=
+Definition judge_C01_event (pc : proxy_case) (st : jstate) (ev : event) (outs : list (bytes * bytes)) (closed : list nat) : nat :=
+  let c := pc_cfg pc in
   match j_input st ev with
   | Some i =>
       match j_read (ji_data i) with
@@ -308,7 +325,8 @@ Definition judge_C01_event (c : cfg) (st : jstate) (ev : event) (outs : list (by
 (* ------------------------------------------------------------------ C02 *)
 (* reason codes: 1 relayed although it must be dropped / wrong destination, 2 Via stack of the
    relayed response, 3 output unreadable *)
-Definition judge_C02_event (c : cfg) (st : jstate) (ev : event) (outs : list (bytes * bytes)) (closed : list nat) : nat :=
+Definition judge_C02_event (pc : proxy_case) (st : jstate) (ev : event) (outs : list (bytes * bytes)) (closed : list nat) : nat :=
+  let c := pc_cfg pc in
   match j_input st ev with
   | Some i =>
       match j_read (ji_data i) with
@@ -317,7 +335,7 @@ Definition judge_C02_event (c : cfg) (st : jstate) (ev : event) (outs : list (by
             let es := j_flat is_via (jm_headers m) in
             let ms := msgs_of outs in
             match es with
-            | [] | [_] => if dest_ok JDrop ms then O else 1%nat
+            | [] | [_] => if dest_ok pc st JDrop ms then O else 1%nat
             | e1 :: e2 :: rest =>
                 match j_via e1, j_via e2 with
                 | Some _, Some v2 =>
@@ -332,7 +350,7 @@ Definition judge_C02_event (c : cfg) (st : jstate) (ev : event) (outs : list (by
                           | None => (jv_host v2, jvia_port v2)
                           end in
                         let d := j_dest c (jv_transport v2) host port in
-                        if negb (dest_ok d ms) then 1%nat
+                        if negb (dest_ok pc st d ms) then 1%nat
                         else match ms with
                              | [(_, ob)] =>
                                  match j_read ob with
@@ -349,7 +367,7 @@ Definition judge_C02_event (c : cfg) (st : jstate) (ev : event) (outs : list (by
                              | _ => O
                              end
                     end
-                | _, _ => if dest_ok JDrop ms then O else 1%nat
+                | _, _ => if dest_ok pc st JDrop ms then O else 1%nat
                 end
             end
           else O
@@ -397,7 +415,7 @@ Definition j_choose (c : cfg) (lc : listen_cfg) (tcp : bool) (q : jreq) : jhop :
                       | Some it => Some (Some (j_dest c (ri_proto it) (ri_host it) (ri_port it)))
                       | None => Some None
                       end
-                    else None
+                    else Some None             (* a tel:/urn: To has no host: no static route applies *)
         | None => Some None
         end in
       match static with
@@ -409,7 +427,8 @@ Definition j_choose (c : cfg) (lc : listen_cfg) (tcp : bool) (q : jreq) : jhop :
 Definition backend_labels (l : list bytes) : list bytes := map (fun a => s2b "udp:" ++ a) l.
 (* reason codes: 1 more than one destination, 2 wrong destination / relayed although dropped,
    3 dropped although a hop is prescribed *)
-Definition judge_C03_event (c : cfg) (st : jstate) (ev : event) (outs : list (bytes * bytes)) (closed : list nat) : nat :=
+Definition judge_C03_event (pc : proxy_case) (st : jstate) (ev : event) (outs : list (bytes * bytes)) (closed : list nat) : nat :=
+  let c := pc_cfg pc in
   match j_input st ev with
   | Some i =>
       match j_read (ji_data i), nth_opt (c_listens c) (ji_li i) with
@@ -422,7 +441,7 @@ Definition judge_C03_event (c : cfg) (st : jstate) (ev : event) (outs : list (by
                 else match j_choose c lc (ji_tcp i) q with
                      | HOut => O
                      | HDrop => match ms with [] => O | _ => 2%nat end
-                     | HHop d => if dest_ok d ms then O else match ms with [] => 3%nat | _ => 2%nat end
+                     | HHop d => if dest_ok pc st d ms then O else match ms with [] => 3%nat | _ => 2%nat end
                      | HBackend =>
                          let bs := backend_labels (match nth_opt (js_backends st) (ji_li i) with Some l => l | None => [] end) in
                          match ms, bs with
@@ -442,7 +461,8 @@ Definition judge_C03_event (c : cfg) (st : jstate) (ev : event) (outs : list (by
 
 (* C13: the Route entries the relayed request carries.  reason: 1 wrong entries *)
 Definition all_sip (l : list bytes) : bool := forallb (fun e => ju_sip (j_entry_uri e)) l.
-Definition judge_C13_event (c : cfg) (st : jstate) (ev : event) (outs : list (bytes * bytes)) (closed : list nat) : nat :=
+Definition judge_C13_event (pc : proxy_case) (st : jstate) (ev : event) (outs : list (bytes * bytes)) (closed : list nat) : nat :=
+  let c := pc_cfg pc in
   match j_input st ev with
   | Some i =>
       match j_read (ji_data i), nth_opt (c_listens c) (ji_li i) with
@@ -490,7 +510,8 @@ Definition own_via (lc : listen_cfg) (v : jvia) (branch : bytes) : bool :=
   match jv_port v with Some p => Z.eqb p (lc_udp lc) || Z.eqb p (lc_tcp lc) | None => false end &&
   match j_get (s2b "branch") (jv_params v) with Some b => beq b branch | None => false end.
 (* reason codes C07: 1 sender entry not as prescribed, 2 another entry changed *)
-Definition judge_C07_event (c : cfg) (st : jstate) (ev : event) (outs : list (bytes * bytes)) (closed : list nat) : nat :=
+Definition judge_C07_event (pc : proxy_case) (st : jstate) (ev : event) (outs : list (bytes * bytes)) (closed : list nat) : nat :=
+  let c := pc_cfg pc in
   match j_input st ev with
   | Some i =>
       match j_read (ji_data i), nth_opt (c_listens c) (ji_li i) with
@@ -534,7 +555,8 @@ Definition jtrans_of (c : cfg) (li : nat) (tcp : bool) : option (bytes * bytes *
   end.
 Definition first_of (lc : listen_cfg) : bytes * bytes * Z :=
   if Z.ltb 0 (lc_udp lc) then (s2b "UDP", lc_addr lc, lc_udp lc) else (s2b "TCP", lc_addr lc, lc_tcp lc).
-Definition judge_C06_event (c : cfg) (st : jstate) (ev : event) (outs : list (bytes * bytes)) (closed : list nat) : nat :=
+Definition judge_C06_event (pc : proxy_case) (st : jstate) (ev : event) (outs : list (bytes * bytes)) (closed : list nat) : nat :=
+  let c := pc_cfg pc in
   match j_input st ev with
   | Some i =>
       match j_read (ji_data i), nth_opt (c_listens c) (ji_li i) with
@@ -567,6 +589,7 @@ Definition judge_C06_event (c : cfg) (st : jstate) (ev : event) (outs : list (by
                   | _ => None
                   end in
                 let in_rr := j_flat is_rr (jm_headers m) in
+                if match hop with HOut => true | _ => false end then O else
                 let must := match hop with
                             | HBackend => lc_must_rr lc
                             | _ => lc_must_rr lc end in
@@ -613,12 +636,12 @@ Definition judge_C06_event (c : cfg) (st : jstate) (ev : event) (outs : list (by
   end.
 
 (* ------------------------------------------------------------------ runner *)
-Definition judge_proxy_with (f : cfg -> jstate -> event -> list (bytes * bytes) -> list nat -> nat) (args : list bytes) : list bytes :=
+Definition judge_proxy_with (f : proxy_case -> jstate -> event -> list (bytes * bytes) -> list nat -> nat) (args : list bytes) : list bytes :=
   match d_proxy_case args with
   | Some (pc, obs) =>
       match run_dec (d_rep d_obs_event (List.length (pc_events pc))) obs with
       | Some o =>
-          match j_run f (pc_cfg pc) (js_init (pc_cfg pc)) (pc_events pc) o with
+          match j_run f pc (js_init (pc_cfg pc)) (pc_events pc) o with
           | None => [s2b "ok"]
           | Some (e, why) => [s2b "bad"; e_nat e; e_nat why]
           end
